@@ -153,10 +153,11 @@ func sweepBases() map[string][]*op {
 		"empty":                             nil,
 		"all-user-and-default-experimental": {{kind: opReplace, entries: u1exp}, {kind: opReplaceDefault, entries: d2}},
 		"all-user-half-default-stable":      {{kind: opReplace, entries: u1}, {kind: opReplaceDefault, entries: dHalf}},
+		"all-user-saved-then-save-fails":    {{kind: opReplace, entries: u1}, {kind: opSave}, {kind: opReplaceDefault, entries: dHalf}, {kind: opBreak}},
 	}
 }
 
-var baseOrder = []string{"empty", "all-user-and-default-experimental", "all-user-half-default-stable"}
+var baseOrder = []string{"empty", "all-user-and-default-experimental", "all-user-half-default-stable", "all-user-saved-then-save-fails"}
 
 // sweepCases enumerates the depth-1 cases deterministically.
 func sweepCases(quick bool) []sweepCase {
@@ -188,7 +189,14 @@ func sweepCases(quick bool) []sweepCase {
 					}
 					o := &op{kind: kind, key: k, val: cr, entries: one}
 					ops := append(append([]*op{}, prefix...), o)
-					// persistence epilogue
+					// persistence epilogue (with the fault: first observe the state while saving fails, then repair)
+					if bn == "all-user-saved-then-save-fails" {
+						if kind == opValidateValue || kind == opValidateConfig || kind == opNewPerspective ||
+							(quick && (kind == opReplaceJSON || kind == opReplaceDefaultJSON)) {
+							continue
+						}
+						ops = append(ops, &op{kind: opSave}, &op{kind: opRepair})
+					}
 					switch kind {
 					case opSet:
 						ops = append(ops, &op{kind: opReload})
@@ -216,10 +224,10 @@ func newRunner(specs []spec) *runner {
 	if err != nil {
 		panic(err)
 	}
-	return &runner{specs: specs, path: filepath.Join(d, "config.json")}
+	return &runner{specs: specs, root: d, path: filepath.Join(d, "data", "config.json")}
 }
 
-func (r *runner) cleanup() { _ = os.RemoveAll(filepath.Dir(r.path)) }
+func (r *runner) cleanup() { _ = os.RemoveAll(r.root) }
 
 func startWatchdog() {
 	go func() {
@@ -486,8 +494,8 @@ func parent(c *vlib.Ctx) {
 	}
 	c.SetBudget(vlib.Pick(c, 5*time.Minute, 28*time.Minute))
 	nCar := len(sweepCarriers(nil)) + 1
-	c.Rule(fmt.Sprintf("(1) value sweep: %d cases = 3 base states (empty; every option set in both layers with release level experimental; user layer set, half the default layer, release level stable) x %d keys (%d registered options of all four types with/without regex, allowed values, validation function, release level; one unknown key) x %d carrier values (all Go integer types, float32/64 integral, non-integral, NaN, Inf, 10^6 and +-2^53 edges, strings, bools, []string, []interface{}, typed nil list, list with a non-string, nil, []byte, map, struct, pointer, json.Number) x {SetConfigOption, SetDefaultConfigOption, ReplaceConfig, ReplaceDefaultConfig, the same through MapToJSON->JSONToMap, Option.ValidateValue, ValidateConfig, NewPerspective}, each state-changing case followed by save / new process state / loadConfig; "+
-		"(2) BFS over histories to depth %d over %d operations on %d options + core/releaseLevel: Set/SetDefault with {valid native, valid second (JSON carrier or boundary), invalid, nil} per option, release level {beta, experimental, stable, bogus, nil} in both layers, Replace/ReplaceDefault with all maps of <= 2 entries over a pool of 11 valid/invalid/unknown entries, SaveConfig, loadConfig, loadConfig(strict), save+wipe+load, save+restart+load, restart+load; every history is replayed on a reset package; states de-duplicated on (private user/default layers, release-level gate, config.json bytes, model); the deepest level is checked but its states are not stored. "+
+	c.Rule(fmt.Sprintf("(1) value sweep: %d cases = 4 base states (empty; every option set in both layers with release level experimental; user layer set, half the default layer, release level stable; user layer set and saved, then persistence broken so that saving fails) x %d keys (%d registered options of all four types with/without regex, allowed values, validation function, release level; one unknown key) x %d carrier values (all Go integer types, float32/64 integral, non-integral, NaN, Inf, 10^6 and +-2^53 edges, strings, bools, []string, []interface{}, typed nil list, list with a non-string, nil, []byte, map, struct, pointer, json.Number) x {SetConfigOption, SetDefaultConfigOption, ReplaceConfig, ReplaceDefaultConfig, the same through MapToJSON->JSONToMap, Option.ValidateValue, ValidateConfig, NewPerspective}, each state-changing case followed by save / new process state / loadConfig; "+
+		"(2) BFS over histories to depth %d over %d operations on %d options + core/releaseLevel: Set/SetDefault with {valid native, valid second (JSON carrier or boundary), invalid, nil} per option, release level {beta, experimental, stable, bogus, nil} in both layers, Replace/ReplaceDefault with all maps of <= 2 entries over a pool of 11 valid/invalid/unknown entries, SaveConfig, loadConfig, loadConfig(strict), save+wipe+load, save+restart+load, restart+load, and the fault pair break-persistence (the directory of config.json disappears: SaveConfig and loadConfig fail) / repair-persistence, so that every operation is also run while saving fails; every history is replayed on a reset package; states de-duplicated on (private user/default layers, release-level gate, config.json bytes, model); the deepest level is checked but its states are not stored. "+
 		"After every step: plain and Concurrent getters created after the step, before the history and (last step) never called before, wrong-type and unknown-name getters, Option.UserValue/IsSetByUser, GetActiveConfigValues, four Perspectives. "+
 		"non-trivial = distinct states in which some option holds different values in user and default layer or a release-level-gated option has a user value",
 		len(cases), len(allSpecs())+3, len(allSpecs())+2, nCar, maxDepth, len(ops), len(bfsSpecs)))
